@@ -138,7 +138,7 @@ def layout_plan(tier, rng, linkable_only=False):
                 ("single",  dict(skels=["s3"], mode="bfs", maxgaps=1, maxper=1, allowed="all", choices=ALL_CHOICES), 2, None, None),
                 ("sim",     dict(skels=["s2"], mode="sim", maxgaps=0, maxper=2, allowed="all", choices=ALL_CHOICES, density=25), 1, 30, 600),
                 # runs of consecutive line comments in a CRLF context (every case is used, not sampled)
-                ("crlf",    dict(skels=["s3"], mode="bfs", maxgaps=1, maxper=2, allowed="first", choices=["LCR"]), 1, None, None),
+                ("crlf",    dict(skels=["s3"], mode="bfs", maxgaps=1, maxper=3, allowed="first", choices=["LCR"]), 1, None, None),
             ]
         else:
             plan = [
